@@ -1,9 +1,12 @@
 package main
 
 import (
+	"encoding/json"
 	"flag"
 	"fmt"
 	"os"
+	"os/exec"
+	"path/filepath"
 	"sort"
 	"strings"
 )
@@ -45,6 +48,9 @@ func main() {
 func pkgsOfKeys(keys []string) []string {
 	set := map[string]bool{}
 	for _, k := range keys {
+		if strings.HasPrefix(k, "lemma:") {
+			continue
+		}
 		set[strings.Split(k, ".")[0]] = true
 	}
 	var out []string
@@ -148,6 +154,18 @@ func cmdFunc(args []string) {
 	sem := make(chan struct{}, 16)
 	fails := 0
 	for _, k := range keys {
+		if strings.HasPrefix(k, "lemma:") {
+			for _, lm := range C.Lemmas {
+				if lm.Name == strings.TrimPrefix(k, "lemma:") {
+					res := buildLemmaVC(P, C, lm)
+					if res.Error == "" {
+						discharge(res, VerifyOpts{TimeoutS: *t, Keep: *keep}, sem)
+					}
+					fails += printResult(res, *verbose)
+				}
+			}
+			continue
+		}
 		fn := P.lookupFunc(k)
 		if fn == nil {
 			fmt.Fprintln(os.Stderr, "not found:", k)
@@ -217,7 +235,6 @@ func cmdSweep(args []string) {
 	fmt.Printf("functions %d  out-of-subset %d  obligations %d  failing %d\n", n, oos, tot, fails)
 }
 
-func cmdSelftest(args []string) { fmt.Println("not implemented"); os.Exit(2) }
 
 func cmdLoops(args []string) {
 	P, err := loadProgram(pkgsOfKeys(args))
@@ -243,5 +260,71 @@ func cmdLoops(args []string) {
 		for _, li := range lis {
 			fmt.Printf("%s  #%d  %q  (line %d)\n", k, li.ordinal, li.key, P.Fset.Position(li.pos).Line)
 		}
+	}
+}
+
+type mutant struct {
+	Name     string `json:"name"`
+	Property string `json:"property"`
+	File     string `json:"file"`
+	Old      string `json:"old"`
+	New      string `json:"new"`
+	Expect   string `json:"expect"`
+}
+
+// cmdSelftest: every must-fail mutant must make the check of its property report a violation whose
+// obligation name contains the expected text. Mutants are applied through an overlay (no copy of /repo).
+func cmdSelftest(args []string) {
+	data, err := os.ReadFile(filepath.Join(verifRoot(), "selftest", "mutants.json"))
+	if err != nil {
+		fmt.Fprintln(os.Stderr, err)
+		os.Exit(2)
+	}
+	var ms []mutant
+	if err := json.Unmarshal(data, &ms); err != nil {
+		fmt.Fprintln(os.Stderr, err)
+		os.Exit(2)
+	}
+	only := ""
+	if len(args) > 0 {
+		only = args[0]
+	}
+	self, _ := os.Executable()
+	fails := 0
+	for _, m := range ms {
+		if only != "" && !strings.Contains(m.Name, only) && m.Property != only {
+			continue
+		}
+		src, err := os.ReadFile(filepath.Join(repoRoot(), m.File))
+		if err != nil || strings.Count(string(src), m.Old) != 1 {
+			fmt.Printf("%-32s SKIPPED: the text to mutate occurs %d times in %s\n", m.Name, strings.Count(string(src), m.Old), m.File)
+			fails++
+			continue
+		}
+		tmp, _ := os.MkdirTemp(scratchDir(), "mut")
+		mf := filepath.Join(tmp, filepath.Base(m.File))
+		os.WriteFile(mf, []byte(strings.Replace(string(src), m.Old, m.New, 1)), 0o644)
+		ov, _ := json.Marshal(map[string]string{filepath.Join(repoRoot(), m.File): mf})
+		ovf := filepath.Join(tmp, "ov.json")
+		os.WriteFile(ovf, ov, 0o644)
+		cmd := exec.Command(self, "check", m.Property, "quick")
+		cmd.Env = append(os.Environ(), "GOVC_OVERLAY="+ovf, "GOVC_NO_EVIDENCE=1")
+		out, _ := cmd.CombinedOutput()
+		os.RemoveAll(tmp)
+		caught := false
+		for _, ln := range strings.Split(string(out), "\n") {
+			if strings.HasPrefix(ln, "VIOLATION") && (strings.Contains(ln, sanitize(m.Expect)) || strings.Contains(ln, "bounded") && strings.HasPrefix(m.Expect, "bounded")) {
+				caught = true
+			}
+		}
+		if caught {
+			fmt.Printf("%-32s caught (%s)\n", m.Name, m.Property)
+		} else {
+			fmt.Printf("%-32s MISSED (%s): expected a violation naming %q\n%s\n", m.Name, m.Property, m.Expect, truncate(string(out), 1500))
+			fails++
+		}
+	}
+	if fails > 0 {
+		os.Exit(1)
 	}
 }
